@@ -173,20 +173,21 @@ impl Socket for ReqSocket {
 impl MultiPeerBackend for ReqSocketBackend {
     async fn peer_connected(self: Arc<Self>, peer_id: &PeerIdentity, io: FramedIo) {
         let (recv_queue, send_queue) = io.into_parts();
-        self.peers
-            .upsert_async(
-                peer_id.clone(),
-                Arc::new(ReqPeer {
-                    conn: crate::backend::next_conn(),
-                    io: futures::lock::Mutex::new(Peer {
-                        _identity: peer_id.clone(),
-                        send_queue,
-                        recv_queue,
-                    }),
+        let registered = crate::backend::register(
+            &self.peers,
+            peer_id,
+            Arc::new(ReqPeer {
+                conn: crate::backend::next_conn(),
+                io: futures::lock::Mutex::new(Peer {
+                    _identity: peer_id.clone(),
+                    send_queue,
+                    recv_queue,
                 }),
-            )
-            .await;
+            }),
+        )
+        .await;
         self.round_robin.join(peer_id);
+        drop(registered);
     }
 
     fn peer_disconnected(&self, peer_id: &PeerIdentity) {
@@ -198,12 +199,12 @@ impl MultiPeerBackend for ReqSocketBackend {
 impl ReqSocketBackend {
     /// Forgets connection `conn` of a peer, not a newer connection registered under its identity
     fn forget_conn(&self, peer_id: &PeerIdentity, conn: u64) {
-        let forgotten = self
-            .peers
-            .remove_if_sync(peer_id, |peer| peer.conn == conn)
-            .is_some();
-        if forgotten {
-            self.round_robin.leave(peer_id);
+        // (both steps under the lock of the peer's bucket, see `backend::register`)
+        if let scc::hash_map::Entry::Occupied(registered) = self.peers.entry_sync(peer_id.clone()) {
+            if registered.get().conn == conn {
+                self.round_robin.leave(peer_id);
+                let _ = registered.remove_entry();
+            }
         }
     }
 }
